@@ -178,8 +178,11 @@ def all_groups(n, use_cache=True):
     prod_{k=1..n}(2^k+1)."""
     path = os.path.join(_CACHE_DIR, f"groups{n}.pkl")
     if use_cache and os.path.exists(path):
-        with open(path, "rb") as f:
-            d = pickle.load(f)
+        try:
+            with open(path, "rb") as f:
+                d = pickle.load(f)
+        except Exception:
+            d = {}                                  # unreadable cache: recompute
         if len(d) == EXPECTED_GROUPS[n]:
             return d
     orbit_of, reps = orbit_table(n)
